@@ -88,13 +88,21 @@ IsWords == <<"is", "are", "was", "were">>
 LastIsLetter(st) == st.t # "" /\ LET ch == CharAt(st.t, Len(st.t)) IN
                                  ch \in { CharAt(UpperS, i) : i \in 1..26 } \cup { CharAt(LowerS, i) : i \in 1..26 } \cup {"~", "^"}
 SfxForms(st) == IF LastIsLetter(st) THEN <<"'s", "'re", "'S", "'RE", "'Re", "'rE">> ELSE <<"'s", "'re">>
+(* a contraction may also stand directly after a comment that follows the word (`Tommy (the man)'s 5`): the comment is ignorable *)
+(* there too.  After a comment only the lower-case forms are written.                                                              *)
+SfxOut(st, tp, form) ==
+  LET p == Pick(st, tp, 3)
+      low == IF form \in {"'s", "'S"} THEN "'s" ELSE "'re"
+  IN CASE p[1] = 1 -> Out(p[2], "(c)" \o low)
+       [] p[1] = 2 -> Out(p[2], " (c d)" \o low)
+       [] OTHER -> Out(p[2], form)
 RCompare(st, tp, noise, op, family) ==      \* renders the operator between its operands (gaps included); family \in {"is", "sym"}
   LET useIs == family = "is"
       s1 == st
   IN IF useIs THEN
        LET q == Pick(s1, tp, 4 + Len(SfxForms(s1)))           \* is are was were 's 're ('S 'RE 'Re 'rE)
            s2 == IF q[1] < 4 THEN Word(Gap(q[2], noise), tp, IsWords[q[1] + 1])
-                 ELSE Out(q[2], SfxForms(s1)[q[1] - 3])
+                 ELSE SfxOut(q[2], tp, SfxForms(s1)[q[1] - 3])
        IN CASE op = "eq" -> Gap(s2, noise)
             [] op = "ne" -> Gap(Kw(Gap(s2, noise), tp, "k_not"), noise)
             [] op \in {"gt", "lt"} -> Gap(Kw(Gap(Kw(Gap(s2, noise), tp, IF op = "gt" THEN "k_bigger" ELSE "k_smaller"), noise), tp, "k_than"), noise)
@@ -258,7 +266,8 @@ RElems(st, tp, es, first) ==
 (* decoration of a line end.  A comma can only follow a statement that cannot take it as a list / argument / parameter   *)
 (* separator; a period directly after a word, a blank-separated period anywhere except after a poetic number literal    *)
 (* (where it would be part of the literal)                                                                              *)
-EolStyles == <<"", ",", " .", " ", "\r", ";", ".", " ,", " (a" \o NL \o NL \o "b" \o NL \o ")">>   \* the last: a closing comment over three line breaks
+EolStyles == <<"", ",", " .", " ", "\r", ";", ".", " ,", " (a" \o NL \o NL \o "b" \o NL \o ")",   \* index 8: a closing comment over three line breaks
+               "\r ", "\r\r">>       \* a carriage return is a blank wherever it stands: CR blank LF and CR CR LF end ONE line
 RECURSIVE NoListTail(_)
 NoListTail(e) == \/ e.e \in {"lit", "var", "pro"}
                  \/ (e.e = "idx" /\ NoListTail(e.k)) \/ (e.e = "roll" /\ NoListTail(e.a)) \/ (e.e = "un" /\ NoListTail(e.x))
@@ -322,7 +331,7 @@ RStmt(st0, tp, naming, s) ==
     [] s.s = "pnum" ->
          LET l == RLhs(st, cx, s.dest)
              q == Pick(l, tp, 4 + Len(SfxForms(l)))
-             h == IF q[1] < 4 THEN G(Word(G(q[2]), tp, IsWords[q[1] + 1])) ELSE G(Out(q[2], SfxForms(l)[q[1] - 3]))
+             h == IF q[1] < 4 THEN G(Word(G(q[2]), tp, IsWords[q[1] + 1])) ELSE G(SfxOut(q[2], tp, SfxForms(l)[q[1] - 3]))
          IN IF s.e.e = "plit" THEN EolK(RElems(h, tp, s.e.elems, TRUE), s, eol) ELSE EolK(E(h, s.e), s, eol)
     [] s.s = "pstr" -> Out(Out(K(G(RLhs(st, cx, s.dest)), "k_says"), " " \o s.str), NL)      \* the text is taken verbatim: no decoration
     [] s.s = "if" ->
